@@ -162,6 +162,37 @@ def make_shape(s):
     return ShapeGroup([make_shape(m) for m in s["m"]])
 
 
+def make_shape_via(s, seed):
+    """the shape of spec s reached through its public setters: an object built with other values answers queries
+    (vertices, point containment, exported geometry), then length / width / center / orientation (radius / center;
+    vertices) are assigned the values of s.  What the object denotes is given by its current attribute values."""
+    import random
+    r = random.Random(seed)
+    if s["k"] == "group":
+        return ShapeGroup([make_shape_via(m, r.randrange(1 << 30)) for m in s["m"]])
+    dx, dy = r.choice([3.0, -2.5, 0.75]), r.choice([-4.0, 1.5, 6.25])
+    if s["k"] == "rect":
+        sh = Rectangle(s["l"] + r.choice([0.0, 1.5, 3.0]), s["w"] * r.choice([1.0, 2.0, 0.5]),
+                       np.array([s["c"][0] + dx, s["c"][1] + dy], dtype=float), r.choice([0.0, 0.4, s["o"]]))
+        sh.vertices, sh.shapely_object
+        sh.contains_point(np.array([s["c"][0] + dx, s["c"][1] + dy], dtype=float))
+        sets = [("length", s["l"]), ("width", s["w"]), ("center", np.array(s["c"], dtype=float)), ("orientation", s["o"])]
+    elif s["k"] == "circ":
+        sh = Circle(s["r"] * r.choice([1.0, 2.0, 0.5]), np.array([s["c"][0] + dx, s["c"][1] + dy], dtype=float))
+        sh.shapely_object
+        sh.contains_point(np.array(s["c"], dtype=float))
+        sets = [("radius", s["r"]), ("center", np.array(s["c"], dtype=float))]
+    else:
+        sh = Polygon(np.array([[x + dx, y + dy] for x, y in s["v"]], dtype=float))
+        sh.shapely_object, sh.center
+        sh.contains_point(np.array(s["v"][0], dtype=float))
+        sets = [("vertices", np.array(s["v"], dtype=float))]
+    r.shuffle(sets)
+    for a, v in sets:
+        setattr(sh, a, v)
+    return sh
+
+
 def shift_shape(s, dx, dy):
     if s["k"] in ("rect", "circ"):
         return dict(s, c=[s["c"][0] + dx, s["c"][1] + dy])
